@@ -24,23 +24,64 @@ def _strip_doc(body):
     return body
 
 
-COEF = {'a': 'Coef.a', 'b': 'Coef.b', 'a + b': 'Coef.apb'}
-SRC = {'x1_arr': 'Src.x1', 'x2_arr': 'Src.x2'}
+COEF = {'a': 'Coef.a', 'b': 'Coef.b', 'apb': 'Coef.apb'}
+SRC = {'x1': 'Src.x1', 'x2': 'Src.x2'}
+
+# ---------------------------------------------------------------------------------------
+# The dispatch part of `_lincomb_impl` is translated by a small SYMBOLIC EXECUTOR rather than
+# by pattern matching on its shape, so that harmless restructurings (elif chains, merged
+# branches that first pick `scalar, src = a, x1_arr`, conditional expressions, early returns)
+# give an equivalent program instead of an extraction failure.  It interprets exactly:
+#   * assignments of symbolic values (the scalars a, b, a + b; the sources x1_arr, x2_arr;
+#     the constants 0 and 1) to local names, also tuple-wise;
+#   * if / elif / else and conditional expressions whose tests are Boolean combinations of
+#     `<scalar> ==/!= 0|1` (for a + b only `0`), and `is` / `is not` between x1, x2, out;
+#   * the primitives scal(c, out_arr, size), axpy(src, out_arr, size, c),
+#     copy(src, out_arr, size), `out_arr[:] = 0`, `pass`, a bare `return`, and the recursive
+#     call `_lincomb_impl(a + b, x1, 0, x1, out)`.
+# Anything else raises ExtractionError (fail closed).  A branch that changes the local
+# environment is handled by executing the rest of the block once per branch.
+# ---------------------------------------------------------------------------------------
+BASE_ENV = {'a': ('coef', 'a'), 'b': ('coef', 'b'),
+            'x1_arr': ('src', 'x1'), 'x2_arr': ('src', 'x2')}
+PROTECTED = {'a', 'b', 'x1', 'x2', 'out', 'x1_arr', 'x2_arr', 'out_arr', 'size',
+             'axpy', 'scal', 'copy', '_lincomb_impl'}
 
 
-def _cond(node):
+def _val(node, env):
+    """Symbolic value of an expression, or ExtractionError."""
+    if isinstance(node, ast.Name):
+        if node.id in env:
+            return env[node.id]
+        raise ExtractionError('unknown name in the dispatch: ' + node.id)
+    if isinstance(node, ast.Constant) and type(node.value) is int and node.value in (0, 1):
+        return ('const', node.value)
+    if isinstance(node, ast.BinOp) and isinstance(node.op, ast.Add):
+        l, r = _val(node.left, env), _val(node.right, env)
+        if {l, r} == {('coef', 'a'), ('coef', 'b')}:
+            return ('coef', 'apb')
+        raise ExtractionError('unknown sum ' + _u(node))
+    if isinstance(node, ast.Tuple):
+        return ('tuple',) + tuple(_val(e, env) for e in node.elts)
+    if isinstance(node, ast.IfExp):
+        return ('ifexp', _cond(node.test, env), _val(node.body, env), _val(node.orelse, env))
+    raise ExtractionError('unknown expression in the dispatch: ' + _u(node))
+
+
+def _cond(node, env):
     if isinstance(node, ast.BoolOp):
         op = 'Cond.and' if isinstance(node.op, ast.And) else 'Cond.or'
-        parts = [_cond(v) for v in node.values]
+        parts = [_cond(v, env) for v in node.values]
         out = parts[0]
         for p in parts[1:]:
             out = '({} {} {})'.format(op, out, p)
         return out
     if isinstance(node, ast.UnaryOp) and isinstance(node.op, ast.Not):
-        return '(Cond.not {})'.format(_cond(node.operand))
+        return '(Cond.not {})'.format(_cond(node.operand, env))
     if isinstance(node, ast.Compare) and len(node.ops) == 1:
-        l, r, op = _u(node.left), _u(node.comparators[0]), node.ops[0]
+        op = node.ops[0]
         if isinstance(op, (ast.Is, ast.IsNot)):
+            l, r = _u(node.left), _u(node.comparators[0])
             tbl = {('x1', 'x2'): 'Cond.x1IsX2', ('x2', 'x1'): 'Cond.x1IsX2',
                    ('out', 'x1'): 'Cond.outIsX1', ('x1', 'out'): 'Cond.outIsX1',
                    ('out', 'x2'): 'Cond.outIsX2', ('x2', 'out'): 'Cond.outIsX2'}
@@ -49,51 +90,138 @@ def _cond(node):
             c = tbl[(l, r)]
             return c if isinstance(op, ast.Is) else '(Cond.not {})'.format(c)
         if isinstance(op, (ast.Eq, ast.NotEq)):
-            tbl = {('a', '0'): 'Cond.aEq0', ('a', '1'): 'Cond.aEq1',
-                   ('b', '0'): 'Cond.bEq0', ('b', '1'): 'Cond.bEq1',
-                   ('a + b', '0'): 'Cond.apbEq0'}
-            if (l, r) not in tbl:
+            l, r = _val(node.left, env), _val(node.comparators[0], env)
+            if l[0] == 'const' and r[0] == 'coef':
+                l, r = r, l
+            tbl = {('a', 0): 'Cond.aEq0', ('a', 1): 'Cond.aEq1',
+                   ('b', 0): 'Cond.bEq0', ('b', 1): 'Cond.bEq1',
+                   ('apb', 0): 'Cond.apbEq0'}
+            if l[0] != 'coef' or r[0] != 'const' or (l[1], r[1]) not in tbl:
                 raise ExtractionError('unknown scalar test ' + _u(node))
-            c = tbl[(l, r)]
+            c = tbl[(l[1], r[1])]
             return c if isinstance(op, ast.Eq) else '(Cond.not {})'.format(c)
     raise ExtractionError('unknown condition ' + _u(node))
 
 
-def _stmt(node):
+def _assigns(stmts):
+    """Does the block (recursively) assign a local name or return early?"""
+    for st in stmts:
+        for n in ast.walk(st):
+            if isinstance(n, ast.Return):
+                return True
+            if isinstance(n, ast.Assign) and _u(n) != 'out_arr[:] = 0':
+                return True
+    return False
+
+
+def _seq(first, rest):
+    if rest == 'Stmt.skip':
+        return first
+    if first == 'Stmt.skip':
+        return rest
+    return '(Stmt.seq {} {})'.format(first, rest)
+
+
+def _coef(v, node):
+    if v[0] != 'coef':
+        raise ExtractionError('not one of the scalars a, b, a + b: ' + _u(node))
+    return COEF[v[1]]
+
+
+def _src(v, node):
+    if v[0] != 'src':
+        raise ExtractionError('not one of x1_arr, x2_arr: ' + _u(node))
+    return SRC[v[1]]
+
+
+def _bind(env, target, val, node):
+    """Bind a (tuple of) local name(s); conditional values fork the execution."""
+    if isinstance(target, ast.Tuple):
+        if val[0] != 'tuple' or len(val) - 1 != len(target.elts):
+            raise ExtractionError('tuple assignment ' + _u(node))
+        for t, v in zip(target.elts, val[1:]):
+            env = _bind(env, t, v, node)
+        return env
+    if not isinstance(target, ast.Name) or target.id in PROTECTED:
+        raise ExtractionError('assignment to ' + _u(target) + ' in the dispatch')
+    if val[0] not in ('coef', 'src', 'const'):
+        raise ExtractionError('assigned value in ' + _u(node))
+    env = dict(env)
+    env[target.id] = val
+    return env
+
+
+def _exec(stmts, env):
+    """Stmt term for a statement list executed in the symbolic environment env."""
+    if not stmts:
+        return 'Stmt.skip'
+    node, rest = stmts[0], stmts[1:]
+    if isinstance(node, ast.Return):
+        if node.value is not None:
+            raise ExtractionError('return with a value in the dispatch')
+        return 'Stmt.skip'
+    if isinstance(node, ast.Pass):
+        return _exec(rest, env)
     if isinstance(node, ast.If):
-        return '(Stmt.ite {} {} {})'.format(_cond(node.test), _block(node.body),
-                                            _block(node.orelse))
+        c = _cond(node.test, env)
+        if _assigns(node.body) or _assigns(node.orelse):
+            return '(Stmt.ite {} {} {})'.format(c, _exec(node.body + rest, env),
+                                                _exec(node.orelse + rest, env))
+        return _seq('(Stmt.ite {} {} {})'.format(c, _exec(node.body, env),
+                                                 _exec(node.orelse, env)), _exec(rest, env))
+    if isinstance(node, ast.Assign):
+        if _u(node) == 'out_arr[:] = 0':
+            return _seq('Stmt.zero', _exec(rest, env))
+        if len(node.targets) != 1:
+            raise ExtractionError('chained assignment ' + _u(node))
+        val = _val(node.value, env)
+        if val[0] == 'ifexp':
+            return '(Stmt.ite {} {} {})'.format(
+                val[1], _exec(rest, _bind(env, node.targets[0], val[2], node)),
+                _exec(rest, _bind(env, node.targets[0], val[3], node)))
+        return _exec(rest, _bind(env, node.targets[0], val, node))
     if isinstance(node, ast.Expr) and isinstance(node.value, ast.Call):
         call = node.value
         fn = _u(call.func)
-        args = [_u(a) for a in call.args]
         if call.keywords:
             raise ExtractionError('keywords in ' + _u(node))
-        if fn == 'scal' and len(args) == 3 and args[0] in COEF and args[1:] == ['out_arr', 'size']:
-            return '(Stmt.scal {})'.format(COEF[args[0]])
-        if fn == 'axpy' and len(args) == 4 and args[0] in SRC and \
-                args[1:3] == ['out_arr', 'size'] and args[3] in COEF:
-            return '(Stmt.axpy {} {})'.format(SRC[args[0]], COEF[args[3]])
-        if fn == 'copy' and len(args) == 3 and args[0] in SRC and args[1:] == ['out_arr', 'size']:
-            return '(Stmt.copy {})'.format(SRC[args[0]])
-        if fn == '_lincomb_impl' and args == ['a + b', 'x1', '0', 'x1', 'out']:
-            return 'Stmt.recurse'
+        args = call.args
+        names = [_u(a) for a in args]
+        if fn == 'scal' and len(args) == 3 and names[1:] == ['out_arr', 'size']:
+            return _seq('(Stmt.scal {})'.format(_coef(_val(args[0], env), node)), _exec(rest, env))
+        if fn == 'axpy' and len(args) == 4 and names[1:3] == ['out_arr', 'size']:
+            return _seq('(Stmt.axpy {} {})'.format(_src(_val(args[0], env), node),
+                                                   _coef(_val(args[3], env), node)),
+                        _exec(rest, env))
+        if fn == 'copy' and len(args) == 3 and names[1:] == ['out_arr', 'size']:
+            return _seq('(Stmt.copy {})'.format(_src(_val(args[0], env), node)), _exec(rest, env))
+        if fn == '_lincomb_impl' and len(args) == 5 and names[1] == 'x1' and \
+                names[3:] == ['x1', 'out'] and _val(args[0], env) == ('coef', 'apb') and \
+                _val(args[2], env) == ('const', 0):
+            return _seq('Stmt.recurse', _exec(rest, env))
         raise ExtractionError('unknown call ' + _u(node))
-    if isinstance(node, ast.Assign) and _u(node) == 'out_arr[:] = 0':
-        return 'Stmt.zero'
-    if isinstance(node, ast.Pass):
-        return 'Stmt.skip'
     raise ExtractionError('unknown statement ' + _u(node))
 
 
-def _block(stmts):
-    if not stmts:
-        return 'Stmt.skip'
-    parts = [_stmt(s) for s in stmts]
-    out = parts[-1]
-    for p in reversed(parts[:-1]):
-        out = '(Stmt.seq {} {})'.format(p, out)
-    return out
+def _stmt(node):
+    return _exec([node], dict(BASE_ENV))
+
+
+class _Norm(ast.NodeTransformer):
+    """`if c: v = A else: v = B`  ->  `v = A if c else B` (shape normalisation used before the
+    exact comparison of the regime preludes)."""
+
+    def visit_If(self, node):
+        self.generic_visit(node)
+        if len(node.body) == 1 and len(node.orelse) == 1 and \
+                all(isinstance(s, ast.Assign) and len(s.targets) == 1 and
+                    isinstance(s.targets[0], ast.Name) for s in node.body + node.orelse) and \
+                node.body[0].targets[0].id == node.orelse[0].targets[0].id:
+            return ast.copy_location(ast.Assign(
+                targets=[node.body[0].targets[0]],
+                value=ast.IfExp(test=node.test, body=node.body[0].value,
+                                orelse=node.orelse[0].value), lineno=node.lineno), node)
+        return node
 
 
 BATOMS = {
@@ -138,7 +266,144 @@ def _btree(stmts):
     raise ExtractionError('_blas_is_applicable: unknown statement ' + _u(st))
 
 
-def _blas_tree(tree):
+BLAS_NOTE = []      # how the last blasTree was obtained (reported in the evidence)
+
+_ALLOWED_NODES = (
+    ast.FunctionDef, ast.arguments, ast.arg, ast.Return, ast.If, ast.For, ast.Expr, ast.Assign,
+    ast.Name, ast.Attribute, ast.Subscript, ast.Slice, ast.Constant, ast.Compare, ast.BoolOp,
+    ast.UnaryOp, ast.Call, ast.GeneratorExp, ast.ListComp, ast.comprehension, ast.Tuple,
+    ast.IfExp, ast.Load, ast.Store, ast.And, ast.Or, ast.Not, ast.Eq, ast.NotEq, ast.In,
+    ast.NotIn, ast.Gt, ast.GtE, ast.Lt, ast.LtE, ast.Is, ast.IsNot, ast.Pass, ast.Continue,
+    ast.Break)
+_ALLOWED_ATTRS = {'dtype', 'size', 'flags', 'f_contiguous', 'c_contiguous', 'max', 'iinfo'}
+_ALLOWED_CALLS = {'any', 'all', 'np.iinfo', 'len'}
+_INT32MAX = "np.iinfo('int32').max"
+
+
+def _blas_vocabulary(tree, fn):
+    """Fail-closed check that `_blas_is_applicable` can only look at what the descriptor `Desc`
+    records: dtype (in)equality among the arguments and membership in `_BLAS_DTYPES`, `.size`
+    compared with the int32 maximum only, and the two contiguity flags; no other attribute, no
+    other constant, no other call, no exception handling, no loops other than over `args`."""
+    consts = {}
+    for node in tree.body:
+        if isinstance(node, ast.Assign) and len(node.targets) == 1 and \
+                isinstance(node.targets[0], ast.Name) and _u(node.value) == _INT32MAX:
+            consts[node.targets[0].id] = _INT32MAX
+    local = {'args'}
+    for n in ast.walk(fn):
+        if isinstance(n, ast.Name) and isinstance(n.ctx, ast.Store):
+            local.add(n.id)
+    for n in ast.walk(fn):
+        if not isinstance(n, _ALLOWED_NODES):
+            raise ExtractionError('_blas_is_applicable uses {} (outside the vocabulary)'
+                                  .format(type(n).__name__))
+        if isinstance(n, ast.Attribute) and n.attr not in _ALLOWED_ATTRS:
+            raise ExtractionError('_blas_is_applicable reads attribute .' + n.attr)
+        if isinstance(n, ast.Call) and (_u(n.func) not in _ALLOWED_CALLS or n.keywords):
+            raise ExtractionError('_blas_is_applicable calls ' + _u(n.func))
+        if isinstance(n, ast.Call) and _u(n.func) == 'np.iinfo' and _u(n) != "np.iinfo('int32')":
+            raise ExtractionError('_blas_is_applicable: ' + _u(n))
+        if isinstance(n, ast.Name) and isinstance(n.ctx, ast.Load) and n.id not in local and \
+                n.id not in consts and n.id not in ('np', '_BLAS_DTYPES', 'any', 'all', 'len',
+                                                    'True', 'False'):
+            raise ExtractionError('_blas_is_applicable uses the name ' + n.id)
+        if isinstance(n, ast.For) and _u(n.iter) not in ('args', 'args[1:]'):
+            raise ExtractionError('_blas_is_applicable loops over ' + _u(n.iter))
+        if isinstance(n, ast.Compare):
+            sides = [n.left] + list(n.comparators)
+            us = [_u(x) for x in sides]
+            if any(u.endswith('.size') for u in us):
+                other = [u for u in us if not u.endswith('.size')]
+                if len(n.ops) != 1 or len(other) != 1 or \
+                        (other[0] != _INT32MAX and consts.get(other[0]) != _INT32MAX):
+                    raise ExtractionError('_blas_is_applicable compares a size with ' + repr(other))
+    for n in ast.walk(fn):
+        if isinstance(n, ast.Constant) and not isinstance(n.value, (bool, str, type(None))):
+            # numeric literals only as positions into `args`
+            if not (type(n.value) is int and n.value in (0, 1)):
+                raise ExtractionError('_blas_is_applicable: numeric literal {!r}'.format(n.value))
+    for n in ast.walk(fn):
+        if isinstance(n, ast.Subscript) and _u(n.value) != 'args':
+            raise ExtractionError('_blas_is_applicable subscripts ' + _u(n.value))
+
+
+class _Flags(object):
+    def __init__(self, c, f):
+        self.c_contiguous, self.f_contiguous = c, f
+
+
+class _Stub(object):
+    """What `_blas_is_applicable` may look at of an array."""
+
+    def __init__(self, dtype, size, c, f):
+        import numpy as np
+        self.dtype, self.size, self.flags = np.dtype(dtype), size, _Flags(c, f)
+
+
+def _blas_tree_live(repo, tree, fn):
+    """Truth table of the LIVE `_blas_is_applicable` over the descriptor atoms, used when the
+    function is not a plain if/elif chain.  Sound only together with `_blas_vocabulary`."""
+    import itertools
+    import importlib
+    _blas_vocabulary(tree, fn)
+    mod = importlib.import_module('odl.space.npy_tensors')
+    if not os.path.realpath(mod.__file__).startswith(os.path.realpath(repo) + os.sep):
+        raise ExtractionError('live module {} is not the tree under test {}'.format(mod.__file__, repo))
+    live = mod._blas_is_applicable
+    blas = set(mod._BLAS_DTYPES)
+    dtypes = ['float32', 'float64', 'complex64', 'complex128', 'float16', 'int64', 'bool', 'object']
+    imax = 2 ** 31 - 1
+    sizes = [6, imax, imax + 1]
+    per_arg = [(dt, sz, c, f) for dt in dtypes for sz in sizes
+               for c in (False, True) for f in (False, True)]
+    table = {}
+    ncalls = 0
+    # all pairs exhaustively for the (x1, out) positions, a reduced set for the middle one
+    mid = [(dt, sz, c, f) for dt in ('float32', 'float64', 'int64') for sz in (6, imax + 1)
+           for c in (False, True) for f in (False, True)]
+    for a1 in per_arg:
+        s1 = _Stub(*a1)
+        for a2 in mid:
+            s2 = _Stub(*a2)
+            for a3 in per_arg:
+                s3 = _Stub(*a3)
+                try:
+                    r = live(s1, s2, s3)
+                except Exception as e:
+                    raise ExtractionError('live _blas_is_applicable raised {}: {}'
+                                          .format(type(e).__name__, e))
+                ncalls += 1
+                if r is not True and r is not False:
+                    raise ExtractionError('live _blas_is_applicable returned {!r}'.format(r))
+                args = (a1, a2, a3)
+                key = (any(x[0] != a1[0] for x in args[1:]),
+                       any(__import__('numpy').dtype(x[0]) not in blas for x in args),
+                       all(x[3] for x in args), all(x[2] for x in args),
+                       any(x[1] > imax for x in args))
+                if table.setdefault(key, r) != r:
+                    raise ExtractionError(
+                        '_blas_is_applicable is not a function of (dtypes differ, dtype not BLAS, '
+                        'all F-contiguous, all C-contiguous, too big): differs inside class {} at {}'
+                        .format(key, args))
+    if len(table) != 32:
+        raise ExtractionError('descriptor classes reached: {} of 32'.format(len(table)))
+    atoms = ['BCond.dtypesDiffer', 'BCond.dtypeNotBlas', 'BCond.allF', 'BCond.allC', 'BCond.tooBig']
+
+    def build(prefix):
+        if len(prefix) == 5:
+            return '(BTree.ret {})'.format('true' if table[tuple(prefix)] else 'false')
+        t, e = build(prefix + [True]), build(prefix + [False])
+        if t == e:
+            return t
+        return '(BTree.ite {} {} {})'.format(atoms[len(prefix)], t, e)
+    BLAS_NOTE.append('blasTree source=live (truth table of the live function over 32 descriptor '
+                     'classes, {} stub calls, AST vocabulary check passed)'.format(ncalls))
+    return build([])
+
+
+def _blas_tree(tree, repo=core.REPO):
+    del BLAS_NOTE[:]
     fn = None
     for node in tree.body:
         if isinstance(node, ast.FunctionDef) and node.name == '_blas_is_applicable':
@@ -154,7 +419,16 @@ def _blas_tree(tree):
     want = "(np.dtype('float32'), np.dtype('float64'), np.dtype('complex64'), np.dtype('complex128'))"
     if blas_dtypes != want:
         raise ExtractionError('_BLAS_DTYPES changed: ' + repr(blas_dtypes))
-    return _btree(fn.body)
+    try:
+        t = _btree(fn.body)
+        BLAS_NOTE.append('blasTree source=ast')
+        return t
+    except ExtractionError as e:
+        first = str(e)
+    try:
+        return _blas_tree_live(repo, tree, fn)
+    except ExtractionError as e:
+        raise ExtractionError('{}; live fallback: {}'.format(first, e))
 
 
 def extract(repo=core.REPO):
@@ -227,8 +501,8 @@ def extract(repo=core.REPO):
             or [_u(a) for a in defs['fallback_copy'].args.args] != ['x1', 'x2', 'n']:
         raise ExtractionError('fallback_copy changed')
     # BLAS regime
-    blas = [_u(s) for s in reg2.orelse]
-    want = ["if out.data.flags.f_contiguous:\n    ravel_order = 'F'\nelse:\n    ravel_order = 'C'",
+    blas = [_u(ast.fix_missing_locations(_Norm().visit(s))) for s in reg2.orelse]
+    want = ["ravel_order = 'F' if out.data.flags.f_contiguous else 'C'",
             'x1_arr = x1.data.ravel(order=ravel_order)',
             'x2_arr = x2.data.ravel(order=ravel_order)',
             'out_arr = out.data.ravel(order=ravel_order)',
@@ -237,7 +511,7 @@ def extract(repo=core.REPO):
     if blas != want:
         raise ExtractionError('BLAS regime changed: ' + repr(blas))
     prog = _stmt(body[2])
-    btree = _blas_tree(tree)
+    btree = _blas_tree(tree, repo)
     lean = '''/- GENERATED by tools/extract/lincomb.py from odl/space/npy_tensors.py — do not edit. -/
 import OdlModel.Model.Lincomb
 namespace OdlModel.Gen.Lincomb
